@@ -545,13 +545,17 @@ func randomSession(seed int64, index int, stub string) (*run, error) {
 		rng := rand.New(rand.NewSource(seed*1000003 + int64(index)*7919 + 17))
 		cfg := randomCfg(rng)
 		outs := randomWallet(rng)
+		var prelude []Label
+		if index%6 == 2 {
+			outs, prelude = multiBatchScenario(rng)
+		}
 		wd, err := newWorld(cfg, outs, nil, stub)
 		if err != nil {
 			return nil, err
 		}
 		r = &run{wd: wd, counts: map[string]int{}}
 		r.record = map[string]any{"kind": "session", "seed": seed, "index": index}
-		err = driveRandom(r, rng, outs, fmt.Sprintf("session%d", index))
+		err = driveRandom(r, rng, outs, prelude, fmt.Sprintf("session%d", index))
 		wd.close()
 		if err != nil {
 			return nil, err
@@ -565,12 +569,59 @@ func randomSession(seed int64, index int, stub string) (*run, error) {
 	return r, nil
 }
 
-func driveRandom(r *run, rng *rand.Rand, outs []Out, tag string) error {
+// multiBatchScenario: a wallet and a Redistribute call that wants more than one batch
+// (redistributeBatchSize = 10 outputs per transaction).  Depending on the draw every batch is
+// funded, or -- the interesting case -- an earlier batch is funded and a later one finds a
+// non-empty but insufficient remainder and is dropped (partial success), or not even the first
+// batch is funded.  The session then goes on randomly (Fund for exactly the balance, Release,
+// ...), so whatever the call reserved beyond the inputs of the returned transactions shows.
+func multiBatchScenario(rng *rand.Rand) ([]Out, []Label) {
+	amt := 2 + rng.Intn(4)
+	n := 11 + rng.Intn(3)
+	var outs []Out
+	switch rng.Intn(5) {
+	case 0: // everything funded: one output per batch
+		outs = []Out{{V: 10*amt + 1 + rng.Intn(3)}, {V: (n-10)*amt + 1 + rng.Intn(3)}}
+	case 1: // not even the first batch
+		outs = []Out{{V: 10*amt - 1}, {V: 1}}
+	default: // first batch funded, the remainder (1..3 small outputs) falls short of the second
+		outs = []Out{{V: 10*amt + 1 + rng.Intn(2)}}
+		for k := 1 + rng.Intn(3); k > 0; k-- {
+			outs = append(outs, Out{V: 1 + rng.Intn(min(amt-1, (n-10)*amt/3+1))})
+		}
+		sum := 0
+		for _, o := range outs[1:] {
+			sum += o.V
+		}
+		if sum >= (n-10)*amt { // make sure the remainder is insufficient
+			outs = outs[:2]
+			outs[1].V = 1
+		}
+	}
+	rng.Shuffle(len(outs), func(i, j int) { outs[i], outs[j] = outs[j], outs[i] })
+	return outs, []Label{{Op: "Redist", N: n, Amt: amt}}
+}
+
+func driveRandom(r *run, rng *rand.Rand, outs []Out, prelude []Label, tag string) error {
 	wd := r.wd
 	wd.fm.fee = cur(pick(rng, 0, 0, 0, 0, 0, 1)) // SplitUTXO's fee = 2000 * this
 	r.emit(wd.resetEvent(outs, tag))
 	if err := r.observe(nil, tag); err != nil {
 		return err
+	}
+	for _, a := range prelude {
+		if _, _, err := r.exec(a); err != nil {
+			return fmt.Errorf("%s prelude %s: %w", tag, hx.JSON(a), err)
+		}
+		if err := r.observe(nil, tag); err != nil {
+			return err
+		}
+		if e := r.events[len(r.events)-2]; e["op"] == "Redist" && e["r"] == "ok" {
+			r.counts["Redist:multi-batch"]++
+			if len(e["d"].([]Desc)) == 1 {
+				r.counts["Redist:partial-success"]++
+			}
+		}
 	}
 	nsteps := 30 + rng.Intn(50)
 	ticks := 0
